@@ -5,6 +5,7 @@ CONSTANTS
   AgeWin = 2
   MAXV = 1000000000
   PragueFrom = 0
+  Base = 0
   MaxHeight = 2
   MaxTxPerBlock = 2
 INVARIANTS MInv
